@@ -318,7 +318,10 @@ def run_task(task):
     from ..engine import new_partial
     part = new_partial()
     for i in range(task["start"], task["start"] + task["n"]):
-        run_file_seed(sub_seed(task["seed"], ID, i), task["tier"], part)
+        try:
+            run_file_seed(sub_seed(task["seed"], ID, i), task["tier"], part)
+        except corrupt.BaseNotWritable:
+            part["counters"]["probe:base_object_not_writable"] += 1
     return part
 
 
